@@ -2,15 +2,9 @@ package main
 
 import (
 	"bufio"
-	"bytes"
 	"encoding/json"
-	"fmt"
 	"math/rand"
 	"os"
-	"os/exec"
-	"strconv"
-	"strings"
-	"sync"
 
 	"verif/harness/drivers/c08"
 	"verif/harness/trace"
@@ -21,83 +15,8 @@ func init() {
 	drivers["c08child"] = runC08Child
 }
 
-// child: -x "<listfile>:<start>", results appended to -out (one JSON line per scenario)
 func runC08Child(o opts) error {
-	i := strings.LastIndexByte(o.extra, ':')
-	start, _ := strconv.Atoi(o.extra[i+1:])
-	b, err := os.ReadFile(o.extra[:i])
-	if err != nil {
-		return err
-	}
-	var list []*c08.Scn
-	if err := json.Unmarshal(b, &list); err != nil {
-		return err
-	}
-	f, err := os.OpenFile(o.out, os.O_APPEND|os.O_CREATE|os.O_WRONLY, 0o644)
-	if err != nil {
-		return err
-	}
-	defer f.Close()
-	for k := start; k < len(list); k++ {
-		res := c08.Execute(list[k])
-		line, _ := json.Marshal(res)
-		f.Write(append(line, '\n'))
-		f.Sync()
-	}
-	return nil
-}
-
-func runSlice(self, dir string, w int, list []*c08.Scn) []*c08.Result {
-	lf := fmt.Sprintf("%s/list%02d.json", dir, w)
-	rf := fmt.Sprintf("%s/res%02d.ndjson", dir, w)
-	b, _ := json.Marshal(list)
-	os.WriteFile(lf, b, 0o644)
-	os.Remove(rf)
-	var results []*c08.Result
-	for len(results) < len(list) {
-		cmd := exec.Command(self, "c08child", "-out", rf, "-x", fmt.Sprintf("%s:%d", lf, len(results)))
-		var stderr bytes.Buffer
-		cmd.Stderr = &stderr
-		err := cmd.Run()
-		// read what it produced
-		results = results[:0]
-		if f, e := os.Open(rf); e == nil {
-			sc := bufio.NewScanner(f)
-			sc.Buffer(make([]byte, 1<<20), 1<<26)
-			for sc.Scan() {
-				var r c08.Result
-				if json.Unmarshal(sc.Bytes(), &r) == nil {
-					results = append(results, &r)
-				}
-			}
-			f.Close()
-		}
-		if err != nil && len(results) < len(list) {
-			// the process died while executing scenario len(results)
-			msg := stderr.String()
-			first := msg
-			if i := strings.Index(msg, "panic:"); i >= 0 {
-				first = msg[i:]
-			} else if i := strings.Index(msg, "fatal error:"); i >= 0 {
-				first = msg[i:]
-			}
-			if j := strings.IndexByte(first, '\n'); j >= 0 {
-				first = first[:j]
-			}
-			if first == "" {
-				first = "process died: " + err.Error()
-			}
-			r := &c08.Result{Items: []map[string]any{}, Panic: first}
-			line, _ := json.Marshal(r)
-			f, _ := os.OpenFile(rf, os.O_APPEND|os.O_CREATE|os.O_WRONLY, 0o644)
-			f.Write(append(line, '\n'))
-			f.Close()
-			results = append(results, r)
-		}
-	}
-	os.Remove(lf)
-	os.Remove(rf)
-	return results
+	return childLoop(o, func(sc *c08.Scn) any { return c08.Execute(sc) })
 }
 
 func runC08(o opts) error {
@@ -137,35 +56,21 @@ func runC08(o opts) error {
 	if err != nil {
 		return err
 	}
-	self, _ := os.Executable()
-	const W = 16
-	var wg sync.WaitGroup
-	for w := 0; w < W; w++ {
-		var idxs []int
-		for i := w; i < len(scns); i += W {
-			idxs = append(idxs, i)
+	raw := runChildren("c08child", o.out, scns, func(i int, msg string) any {
+		return &c08.Result{Items: []map[string]any{}, Panic: msg}
+	})
+	for i, sc := range scns {
+		var r c08.Result
+		if raw[i] == nil || json.Unmarshal(raw[i], &r) != nil {
+			r = c08.Result{Items: []map[string]any{}, Hang: "no result from child"}
 		}
-		if len(idxs) == 0 {
-			continue
+		if r.Items == nil {
+			r.Items = []map[string]any{}
 		}
-		wg.Add(1)
-		go func(w int, idxs []int) {
-			defer wg.Done()
-			list := make([]*c08.Scn, len(idxs))
-			for k, i := range idxs {
-				list[k] = scns[i]
-			}
-			res := runSlice(self, o.out, w, list)
-			for k, i := range idxs {
-				r := res[k]
-				sc := scns[i]
-				ev := trace.Ev{"ev": "run", "in": sc.Input(), "items": r.Items, "closed": r.Closed, "kept": r.Kept,
-					"panic": r.Panic, "hang": r.Hang, "drift": r.Drift, "early": r.EarlyEnd || sc.CloseAt >= 0, "ambig": r.Ambig}
-				sink.Put(&trace.Scenario{Ord: i, Desc: sc, Note: r.Panic + r.Hang + r.Drift, Sig: sc.Kind,
-					Events: []trace.Ev{{"ev": "reset"}, ev}})
-			}
-		}(w, idxs)
+		ev := trace.Ev{"ev": "run", "in": sc.Input(), "items": r.Items, "closed": r.Closed, "kept": r.Kept,
+			"panic": r.Panic, "hang": r.Hang, "drift": r.Drift, "early": r.EarlyEnd || sc.CloseAt >= 0, "ambig": r.Ambig}
+		sink.Put(&trace.Scenario{Ord: i, Desc: sc, Note: r.Panic + r.Hang + r.Drift, Sig: sc.Kind,
+			Events: []trace.Ev{{"ev": "reset"}, ev}})
 	}
-	wg.Wait()
 	return sink.Close()
 }
